@@ -926,4 +926,13 @@ theorem in_sets_tied : Gen.TextTables.inSets =
      ("fast_plain_mtext", ["\\{}", "{}", "ONE_CHAR_COMMANDS"]), ("plain_text", ["kou"]),
      ("MTextEditor.stack", ["^/#"])] := by decide
 
+/-- the small helpers that the model transcribes line by line (`exportMTextContent`, `loadMTextContent`,
+    `splitMText`, `escapeLineEndings`, `caretDecode`, `safeString`, `fixOneLine`, `isValidOneLine`) still have the
+    bodies they were transcribed from (AST of the current source, docstrings removed, re-printed); a change of
+    any of them - e.g. a fast path in `export_mtext_content` that tests the length before the line endings are
+    escaped - breaks this theorem and sends the reader back to the model and to `export_load_roundtrip`,
+    `export_tags_wellformed`, `split_join`, `escape_roundtrip` … -/
+theorem source_bodies_fixed : Gen.TextTables.bodies =
+    [("export_mtext_content", "(text, tagwriter: AbstractTagWriter) txt = escape_dxf_line_endings(text) ;; str_chunks = split_mtext_string(txt, size=250) ;; if len(str_chunks) == 0: ;;     str_chunks.append('') ;; while len(str_chunks) > 1: ;;     tagwriter.write_tag2(3, str_chunks.pop(0)) ;; tagwriter.write_tag2(1, str_chunks[0])"), ("load_mtext_content", "(tags: Tags) tail = '' ;; content = '' ;; for code, value in tags: ;;     if code == 1: ;;         tail = value ;;     elif code == 3: ;;         content += value ;; return escape_dxf_line_endings(content + tail)"), ("split_mtext_string", "(s: str, size: int=250) if size < 2: ;;     raise ValueError('size has to be greater than or equal to 2') ;; chunks = [] ;; pos = 0 ;; while True: ;;     chunk = s[pos:pos + size] ;;     if len(chunk): ;;         if len(chunk) < size: ;;             chunks.append(chunk) ;;             return chunks ;;         pos += size ;;         if chunk[-1] == '^': ;;             chunk = chunk[:-1] ;;             pos -= 1 ;;         chunks.append(chunk) ;;     else: ;;         return chunks"), ("escape_dxf_line_endings", "(text: str) return text.replace('\\r', '').replace('\\n', '\\\\P')"), ("caret_decode", "(text: str) def replace_match(match: re.Match) -> str: ;;     c = ord(match.group(1)) ;;     return chr((c - 64) % 126) ;; return re.sub('\\\\^(.)', replace_match, text)"), ("safe_string", "(s: Optional[str], max_len: int=MAX_STR_LEN) if isinstance(s, str): ;;     return escape_dxf_line_endings(s)[:max_len] ;; return ''"), ("fix_one_line_text", "(text: str) return text.replace('\\n', '').replace('\\r', '').rstrip('^')"), ("is_valid_one_line_text", "(text: str) has_line_breaks = bool(set(text).intersection({'\\n', '\\r'})) ;; return not has_line_breaks and (not text.endswith('^'))")] := by rfl
+
 end EzdxfVerif.Props.C20
